@@ -409,8 +409,6 @@ def _axis_class(name, failing, allv):
     failing, allv = sorted(set(failing)), sorted(set(allv))
     if failing == allv:
         return None
-    if failing == [1]:
-        return f"{name}=1"
     if failing[-1] <= 3:
         return f"{name}<=3"
     return f"{name}:some"
@@ -491,8 +489,8 @@ def shape_of(node, mode, smode):
                         continue
                     if piece not in cl:
                         cl.append(piece)
-        order = ["plain", "nl", "wide", "zero", "dec"]
-        opts = [("b:" if byt else "") + ("+".join(x for x in order if x in cl) or "empty")]
+        order = ["wide", "zero", "nl", "dec"]  # width-relevant classes; plain text is only named when nothing else is there
+        opts = [("b:" if byt else "") + ("+".join(x for x in order if x in cl) or ("plain" if "plain" in cl else "empty"))]
         if isinstance(node.get("text"), list):
             opts.append("markup")
         if node.get("align", "left") != "left":
@@ -517,19 +515,21 @@ def shape_of(node, mode, smode):
             if tag in ("pack", "weight") and letter not in _kinds_tag(c):
                 flagged.append(f"{tag}:!{letter}")
                 continue
+            if isbox:
+                flagged.append(tag)
+                continue
         elif t == "Frame":
             tag = node["parts"][i]
         elif t == "Overlay":
             tag = ("top", "bottom")[i]
-            if i == 0:
-                tag += ":" + _kinds_tag(c)
         else:
-            tag = _kinds_tag(c)
+            tag = "" if letter in _kinds_tag(c) else f"!{letter}"
         if c["t"] in T.CONTAINER_CLASSES and not T.children(c):
             tag += "(empty)"
-        parts.append(tag)
+        if tag:
+            parts.append(tag)
     parts = sorted(set(flagged)) if flagged else sorted(set(parts))
-    return s + "[" + ",".join(parts) + "]"
+    return s + ("[" + ",".join(parts) + "]" if parts else "")
 
 
 def signature(env, recipe, f, sclass):
